@@ -44,6 +44,9 @@ REF_IDENTITY = (
     "<digest::generic_array::GenericArray<T, N> as std::ops::Deref>::deref",
     "<digest::generic_array::GenericArray<T, N> as std::ops::DerefMut>::deref_mut",
 )
+# std wrappers that are their single field as far as values go
+TRANSPARENT = ("std::num::Wrapping", "core::num::Wrapping")
+WRAPPING_OPS = {"Add": "wrapping_add", "Sub": "wrapping_sub", "Mul": "wrapping_mul"}
 MAX_DEPTH = 10
 
 
@@ -272,7 +275,17 @@ class SymExec:
     # ------------------------------------------------------------------ evaluation
     def place_loc(self, st, p):
         loc = ("local", p["l"])
+        cur_ty = self.body.local_ty(p["l"]) if p["p"] else None
         for e in p["p"]:
+            if isinstance(e, dict) and "f" in e and e["f"] == 0 and cur_ty is not None and cur_ty.k == "adt" and cur_ty.path in TRANSPARENT:
+                cur_ty = self.fb.ty(e["ty"]) if "ty" in e else None
+                continue                # `.0` of a transparent wrapper is the value itself
+            if e == "*":
+                cur_ty = cur_ty.to if cur_ty is not None and cur_ty.k in ("ref", "rawptr") and getattr(cur_ty, "to", None) is not None else None
+            elif isinstance(e, dict) and "f" in e:
+                cur_ty = self.fb.ty(e["ty"]) if "ty" in e else None
+            else:
+                cur_ty = None
             if e == "*":
                 v = self.read(st, loc)
                 if v[0] in ("ref", "refv"):
@@ -379,6 +392,8 @@ class SymExec:
             ops = tuple(self.operand(st, o) for o in r["ops"])
             ak = r["ak"]
             if ak == "adt":
+                if r["path"] in TRANSPARENT and len(ops) == 1:
+                    return ops[0]       # `Wrapping(x)` is x: the type only selects wrapping operators
                 return ("agg", "adt", r["path"], r["variant"], ops)
             if ak == "closure":
                 return ("agg", "closure", r["path"], 0, ops)
@@ -480,6 +495,29 @@ class SymExec:
                 self.write(st, dest, r)
                 snap = (("refv", self.read(st, args[0][1])), args[1])
                 return {"k": "call", "name": name, "args": snap, "locargs": args, "term": r, "inlined": True, "ret": r, "site": site, "dest": dest, "elem_access": True}
+        # operators of core::num::Wrapping<uN>: the wrapping operation on the (transparent) values
+        if "std::num::Wrapping<" in name or "core::num::Wrapping<" in name:
+            import re as _re
+            mt = _re.match(r"<(?:&)?(?:std|core)::num::Wrapping<(u8|u16|u32|u64|usize)> as (?:std|core)::ops::(Add|Sub|Mul)(Assign)?(?:<[^>]*>)?>::(\w+)$", name)
+            if mt and len(args) == 2:
+                ity, op, assign = mt.group(1), mt.group(2), mt.group(3)
+                fn_ = "core::num::<impl %s>::%s" % (ity, WRAPPING_OPS[op])
+                if assign and args[0][0] == "ref":
+                    old_ = self.read(st, args[0][1])
+                    rhs = args[1][1] if args[1][0] == "refv" else (self.read(st, args[1][1]) if args[1][0] == "ref" else args[1])
+                    val = ("call", fn_, (old_, rhs), site)
+                    self.write(st, args[0][1], val)
+                    self.assigns[(bb, len(self.body.blocks[bb]["stmts"]))] = (args[0][1], val)
+                    dest = self.place_loc(st, t["dest"])
+                    self.write(st, dest, ("zst", "()"))
+                    return {"k": "call", "name": fn_, "args": (old_, rhs), "locargs": args, "term": ("zst", "()"), "inlined": True, "ret": ("zst", "()"), "site": site, "dest": dest}
+                if not assign:
+                    a_ = args[0][1] if args[0][0] == "refv" else (self.read(st, args[0][1]) if args[0][0] == "ref" else args[0])
+                    b_ = args[1][1] if args[1][0] == "refv" else (self.read(st, args[1][1]) if args[1][0] == "ref" else args[1])
+                    val = ("call", fn_, (a_, b_), site)
+                    dest = self.place_loc(st, t["dest"])
+                    self.write(st, dest, val)
+                    return {"k": "call", "name": fn_, "args": (a_, b_), "locargs": args, "term": val, "inlined": True, "ret": val, "site": site, "dest": dest}
         # `?` on a value whose variant is known (a spliced helper's `Ok(v)` / `Err(e)`): exact
         if name.endswith(" as std::ops::Try>::branch") and len(args) == 1 and args[0][0] == "agg" and args[0][1] == "adt" and args[0][2] in ("std::result::Result", "std::option::Option"):
             x = args[0]
